@@ -7,25 +7,23 @@ func init() {
 	Register("C11", []Target{
 		{Pkg: "crypto/x509", Type: "Certificate", Opaque: true, Views: map[string]string{"Raw": "list Z"}},
 		{Pkg: "crypto/x509", Type: "CertPool", Opaque: true},
-		// translated: the signature media type check (last test of the model's `validate`)
+		// translated: the argument check of SignOCI / SignBlob (the model's `validate`) and the
+		// nil-info / zero-time decisions of generateAnnotations (the model's `gen_ann`)
 		{Pkg: n, Func: "validateSigMediaType"},
-
-		// Refused on /repo ccdc027; kept because the reason documents what is outside the subset
-		// (docs/audit/C11.md, section GoLite). Proofs for the first two are ready in
-		// harness/cmd/vh-c11/golite_pending_proofs.v.txt.
-		// `signer any` compared with nil (notation.go:247-248)
 		{Pkg: n, Func: "validateSignArguments"},
-		// composite literal time.Time{} (internal/envelope/envelope.go:61, :65)
 		{Pkg: "time", Func: "Time.UTC", Oracle: true},
 		{Pkg: ".../internal/envelope", Func: "SigningTime"},
-		// range over the array [1]string (notation.go:278); then desc.Annotations[k] = v through a by-value
-		// struct parameter whose map is the caller's unless len(userMetadata) > 0 replaced it (:286): aliasing
+
+		// Refused; kept because the reason documents what is outside the subset
+		// (docs/audit/C11.md, section GoLite).
+		// desc.Annotations[k] = v through a by-value struct parameter whose map is the caller's unless
+		// len(userMetadata) > 0 replaced it (notation.go:286): aliasing, outside GoLite's value semantics
 		{Pkg: n, Func: "addUserMetadataToDescriptor"},
 		// map parameter reassigned when nil and then written (:622-625); sha256.Sum256 array, json.Marshal(any)
 		{Pkg: n, Func: "generateAnnotations"},
-		// registry.Repository (four-method interface), signer.(signerAnnotation) (:202), errors.As (:215)
+		// registry.Repository (four-method interface), signer.(signerAnnotation) (:202)
 		{Pkg: n, Func: "SignOCI"},
-		// content.Storage / content.Pusher interface values, errors.Is (registry/repository.go:145, :225, :236)
+		// content.Storage / content.Pusher interface values (registry/repository.go:145, :225)
 		{Pkg: ".../registry", Func: "pushNotationManifestConfig"},
 		{Pkg: ".../registry", Func: "(*repositoryClient).PushSignature"},
 	})
